@@ -66,7 +66,7 @@ def corpus_texts(tier):
 
     texts = []
 
-    for path in sorted(glob.glob(os.path.join(VERIF, 'corpus', '*.asn'))):
+    for path in sorted(glob.glob(os.path.join(VERIF, 'corpus', 'dense*.asn'))):
         with open(path) as fin:
             texts.append(('corpus/' + os.path.basename(path), fin.read()))
 
